@@ -184,13 +184,17 @@ func (e *engine) evalFast(w *worker, img []byte, filt []FSpec) fastResult {
 		return fastResult{}
 	}
 	var early Failure
+	stopEarly := func() bool {
+		_, rep := reportedSigs.Load(early.Sig())
+		return knownID(early) != "" || rep // listed, or this very signature was confirmed and reported before
+	}
 	at := w.exec1(path, fastBudget, earlyHangCPU, func(s [][]string) bool {
 		early = hangFailure(s)
-		return knownID(early) != ""
+		return stopEarly()
 	})
 	r := fastResult{resp: at.resp, cpu: at.cpu}
 	if at.timedOut {
-		if early.Kind == "hang" && knownID(early) != "" {
+		if early.Kind == "hang" && stopEarly() {
 			r.fails = []Failure{early}
 		} else {
 			r.timedOut = true
@@ -241,7 +245,6 @@ type stats struct {
 	sigSample   map[string]any
 	sigFailure  map[string]Failure
 	violSigs    map[string]bool
-	reported    sync.Map // signatures already reported as violations (any sub-check of this process)
 	unconfirmed int
 	inconcl     int
 	slow        int
@@ -375,7 +378,7 @@ func (e *engine) processImg(w *worker, subName string, c any, img []byte, filt [
 		// every unlisted signature of this case has been confirmed, minimised and reported already: no second confirmation
 		repeat := true
 		for _, f := range fr.fails {
-			if _, done := st.reported.Load(f.Sig()); knownID(f) == "" && !done {
+			if _, done := reportedSigs.Load(f.Sig()); knownID(f) == "" && !done {
 				repeat = false
 			}
 		}
@@ -491,6 +494,9 @@ func (e *engine) minimize(c Case, sig string) Case {
 	return c
 }
 
+// reportedSigs: signatures already confirmed, minimised and reported as violations by this process (any sub-check)
+var reportedSigs sync.Map
+
 // session bundles what a sub-check needs to run cases and report violations.
 type session struct {
 	t     *testing.T
@@ -511,7 +517,7 @@ func (s *session) report(subName string, c any, f Failure) {
 	s.st.violSigs[f.Sig()] = true
 	s.nViol++
 	s.mu.Unlock()
-	s.st.reported.Store(f.Sig(), true)
+	reportedSigs.Store(f.Sig(), true)
 	if cc, ok := c.(Case); ok {
 		s.e.excl.Lock()
 		c = s.e.minimize(cc, f.Sig())
@@ -795,5 +801,6 @@ func TestProp(t *testing.T) {
 		vt.Func[Case]{Name: subFields, Body: fieldsEnum, One: runOne},
 		vt.Func[FCase]{Name: subFilters, Body: filterStreams, One: runOneF},
 		vt.Func[Case]{Name: subTree, Body: treePointers, One: runOne},
+		vt.Func[Case]{Name: subDup, Body: dupMessages, One: runOne},
 	)
 }
